@@ -11,6 +11,7 @@ import (
 	"strconv"
 	"strings"
 	"sync"
+	"syscall"
 	"time"
 )
 
@@ -262,6 +263,7 @@ type worldPaths struct {
 	SrcArg, DstArg string // as passed on argv
 	LstArg         string
 	SrcAbs, DstAbs string // for the harness to inspect (DstAbs = where bytes land, after symlinks)
+	fifoData       []byte // when the source is a FIFO: what the feeder writes
 }
 
 const nobody = 65534
@@ -300,6 +302,8 @@ func snapshotWorld(root string) map[string]string {
 			m[rel] = "symlink:" + t
 		case info.IsDir():
 			m[rel] = fmt.Sprintf("dir:%o", info.Mode().Perm())
+		case !info.Mode().IsRegular(): // FIFO, device: never opened by the harness
+			m[rel] = "special:" + info.Mode().Type().String()
 		default:
 			b, err := os.ReadFile(p)
 			if err != nil {
@@ -361,6 +365,10 @@ func (s *Scenario) buildWorld(W string, src []byte, image []byte) (*worldPaths, 
 		srcAbs = filepath.Join(W, "out", dstName)
 		must(os.WriteFile(srcAbs, src, 0644))
 	case "emptyarg":
+	case "fifo": // a named pipe fed by a writer (stat size 0; e.g. the output of a preprocessor)
+		must(syscall.Mkfifo(srcAbs, 0666))
+		os.Chmod(srcAbs, 0666)
+		wp.fifoData = src
 	default:
 		panic(modelErr("unknown src kind " + s.SrcKind))
 	}
@@ -799,7 +807,27 @@ func (c *c19Ctx) execute(s *Scenario, keepDir bool) (out *ScenarioOutcome, viol 
 		cmd = append(cmd, c.sim.b.Cli)
 		cmd = append(cmd, argv...)
 		out.Cmdline = cmd
+		var feederDone chan struct{}
+		if wp.fifoData != nil {
+			feederDone = make(chan struct{})
+			go func() { // blocks in open until gosk opens the pipe for reading
+				defer close(feederDone)
+				if f, err := os.OpenFile(wp.SrcAbs, os.O_WRONLY, 0); err == nil {
+					f.Write(wp.fifoData)
+					f.Close()
+				}
+			}()
+		}
 		pr := runProc(cliWatchdog, W, baseEnv("GOMAXPROCS=1", "HOME=/nonexistent"), cmd...)
+		if feederDone != nil {
+			// release a feeder that nobody read from (gosk never opened the source)
+			if rf, err := os.OpenFile(wp.SrcAbs, os.O_RDONLY|syscall.O_NONBLOCK, 0); err == nil {
+				<-feederDone
+				rf.Close()
+			} else {
+				<-feederDone
+			}
+		}
 		if pr.TimedOut {
 			infraFail("gosk CLI watchdog expired: %v", cmd)
 		}
